@@ -83,10 +83,10 @@ PROPS = {
         theorems=['C11_paused_blocks', 'C11_paused_tx_rejected', 'C11_params_owner_only', 'C11_no_unpause_with_legacy',
                   'C11_migrate_unpauses_only_when_drained', 'C11_queries_ignore_pause', 'C11_pause_cycle_identity',
                   'C11_migrate_noop_without_legacy'],
-        kernels=[], scenarios=['basic.ops', 'paramgrid.ops'], grid=True, profiles=['pause'],
+        kernels=[], scenarios=['basic.ops', 'paramgrid.ops', 'legacy.ops'], grid=True, profiles=['pause'],
         keys=['hub.'],
         ops=[r'^hub ', r'^bond ', r'^legacy_wait'],
-        assumes=['legacy wait-list entries only for user0..user7 and batch ids 1..9 (storage order = model order, PROTOCOL.md 3.1)'],
+        assumes=['legacy wait-list entries only for user0..user7 and, per history, batch ids from 1..9 or from {1, 10..19} (within each set storage order = model order, PROTOCOL.md 3.1)'],
     ),
     'C20': dict(
         props_file='Props/C20.v',
